@@ -31,6 +31,8 @@ static std::vector<std::string> names;
 static void quiet() { int dn = open("/dev/null", O_WRONLY); dup2(dn, 1); close(dn); }
 static std::vector<std::string> parse_names(const std::string& cat) { std::vector<std::string> v; std::istringstream is(cat); std::string l; bool in = false; while (std::getline(is, l)) { if (l.find("*---") != std::string::npos) { if (in) break; in = true; continue; } if (in && !l.empty()) v.push_back(l); } return v; }
 static ApiArgs tuple0() { ApiArgs A; A.s[0] = 0.3125L; A.s[1] = 0.4375L; A.s[2] = 0.28125L; A.s[3] = 0.125L; A.i = 1; A.fd = [](double T) { return 2.75 + 0.25 * T; }; A.fl = [](LD T) { return 2.75L + 0.25L * T; }; return A; }
+// arguments far outside the unit box (branches taken only for large |x|, e.g. the "integrate to infinity" branch of the radiation solution), mixed signs, invalid direction index
+static ApiArgs tupleX() { ApiArgs A = tuple0(); A.s[0] = 2000.5L; A.s[1] = -3000.25L; A.s[2] = 0.0009765625L; A.s[3] = 5000.0L; A.i = 7; return A; }
 static std::vector<std::string> vec_names_d() {  // from display_vec (stdout is a pipe here)
   std::vector<std::string> v; int pfd[2]; if (pipe(pfd)) return v; int saved = dup(1); fflush(stdout); std::cout.flush(); dup2(pfd[1], 1); masa_display_vec<double>(); std::cout.flush(); fflush(stdout); dup2(saved, 1); close(saved); close(pfd[1]);
   std::string s; char b[4096]; ssize_t n; while ((n = read(pfd[0], b, sizeof b)) > 0) s.append(b, n); close(pfd[0]);
@@ -47,7 +49,7 @@ static void history(const std::string& s1, const std::string& s2, const std::str
   std::string h1 = "h1" + tag, h2 = "h2" + tag;
   masa_init<double>(h1, s1); masa_init<double>(h2, s2); g_calls += 2;
   masa_display_param<double>(); masa_display_vec<double>(); if (!fixture2) masa_sanity_check<double>(); g_calls += 3;
-  ApiArgs A = tuple0(); for (int k = 0; k < API_N; k++) { API_TABLE[k].cd(A); g_calls++; }
+  ApiArgs A = tuple0(), AX = tupleX(); for (int k = 0; k < API_N; k++) { API_TABLE[k].cd(A); API_TABLE[k].cd(AX); g_calls += 2; }
   // vector parameters: every length change is followed by a full sweep of the evaluators, so that an evaluator indexing a
   // vector by another vector's length (or by a scalar count) runs with every mixed-length configuration
   std::vector<std::string> vns = vec_names_d();
@@ -57,7 +59,7 @@ static void history(const std::string& s1, const std::string& s2, const std::str
         const std::string& vn = vns[pass ? vns.size() - 1 - q : q];
         std::vector<double> v, t(len); for (int i = 0; i < len; i++) t[i] = 0.5 * (i + 1) + len;
         masa_get_vec<double>(vn, v); masa_set_vec<double>(vn, t); masa_get_vec<double>(vn, v); g_calls += 3;
-        for (int k = 0; k < API_N; k++) { API_TABLE[k].cd(A); g_calls++; }
+        for (int k = 0; k < API_N; k++) { API_TABLE[k].cd(A); API_TABLE[k].cd(AX); g_calls += 2; }
       }
     }
     if (vns.empty()) break;
@@ -68,7 +70,7 @@ static void history(const std::string& s1, const std::string& s2, const std::str
   if (!fixture1) { masa_purge_default_param<double>(); masa_init_param<double>(); }
   for (int r = 0; r < 3; r++) { masa_init<double>(h1, s2); g_calls++; }
   char buf[256]; masa_get_name(buf); int dim; masa_get_dimension(&dim); masa_list_mms<double>();
-  masa_init<LD>(h1, s1); masa_init<LD>(h2, s2); masa_init<LD>(h1, s2); for (int k = 0; k < API_N; k += 3) { API_TABLE[k].cl(A); g_calls++; } g_calls += 3;
+  masa_init<LD>(h1, s1); masa_init<LD>(h2, s2); masa_init<LD>(h1, s2); for (int k = 0; k < API_N; k += 3) { API_TABLE[k].cl(A); API_TABLE[k].cl(AX); g_calls += 2; } g_calls += 3;
   masa_printid<double>(); masa_init<double>(h2, s1); g_calls += 2;
 }
 int main(int argc, char** argv) {
